@@ -93,6 +93,22 @@ def run(ctx):
         pats.add(pat)
         if growth_tree != growth_map:
             probs_pair.append("a path changes |tree| by %+d but |obj2count| by %+d" % (growth_tree, growth_map))
+        if pat == (1, 1, 0, 0, 1):
+            # known key: the exact counter goes up by exactly one and the tree entry is re-keyed from n-1 to n
+            val = map_upd[0]["value"]
+            cell = [x for x in val[2] if x != const(1)] if (val[0] == "op" and val[1] == "Add" and len(val[2]) == 2 and const(1) in val[2]) else None
+            if not cell:
+                probs_pair.append("known key: the exact counter is set to %s, expected old + 1 (the tree entry is looked up under new - 1, so any other step leaves a stale entry behind)" % fmt(val)[:160])
+            else:
+                cell = cell[0]
+                rem_e, ins_e = tree_rem[0]["args"][1], tree_ins[0]["args"][1]
+                rn = dict(rem_e[3]).get("n") if rem_e[0] == "adt" else None
+                inn = dict(ins_e[3]).get("n") if ins_e[0] == "adt" else None
+                if rn != mk("Sub", cell, const(1)):
+                    probs_pair.append("known key: the tree entry removed has count %s, expected the counter before the increment" % (fmt(rn) if rn else "?"))
+                from ..terms import linear_eq
+                if inn is None or not (linear_eq(inn, cell) or inn == cell):
+                    probs_pair.append("known key: the tree entry re-inserted has count %s, expected the new counter" % (fmt(inn) if inn else "?"))
         if pat not in ((1, 1, 0, 0, 1), (1, 0, 1, 0, 0), (1, 1, 1, 1, 0), (0, 0, 0, 0, 0)):
             probs_pair.append("operation pattern tree(+%d -%d) map(+%d -%d upd %d) is none of the four documented cases" % pat)
         # counts agree
